@@ -60,7 +60,7 @@ C17_Iff ==
 
 MCDurs == {-60, 0, 1, 2, 3}
 MCMuts == {"none", "tsPlus1", "tsMinus1", "nonNumeric", "emptyUser", "leadingPlus", "leadingSpace", "extraColon",
-           "pwOtherSecret", "pwOtherName", "pwFlip", "pwEmpty", "userSwap",
+           "pwOtherSecret", "pwTrimmedSecret", "pwOtherName", "pwFlip", "pwEmpty", "userSwap",
            "hexTs", "underscoreTs", "octalTs", "expTs"}
 ASSUME PrintT("META " \o ToJson([Sys |-> "ltcred"]))
 EmitEdge ==
